@@ -72,6 +72,8 @@ def judge(kind, cfg, trace):
     if ran and acc == "deny":
         if any(e.startswith("backend(") for e in evs):
             return "the access hook denied the request but the backend ran"
+    if any(e.startswith("backend(") for e in evs) and acc not in ("none", "default") and not any(e.startswith("access_check(") for e in evs):
+        return "the backend ran although the configured access hook was never consulted"
     order = [e.split("(")[0] for e in evs if e.split("(")[0] in ("access_check", "typed_access", "backend")]
     if order != sorted(order, key=["access_check", "typed_access", "backend"].index):
         return "hooks and backend ran out of order: %s" % order
